@@ -8,6 +8,7 @@
    slices: C14, equality/ordering beyond integers and strings: C15, other built-ins: C17).
    Integers are exact on Z; results outside i64 are Unspec here. *)
 From TeraV Require Import Model.Value Model.Pratt.
+From TeraV Require Model.Order.   (* key equality by mathematical value across integer widths: C15 *)
 From Coq Require Import String.
 Open Scope Z_scope.
 
@@ -26,6 +27,10 @@ Definition bind (r : ev) (f : value -> ev) : ev :=
 Definition small (z : Z) : bool := (- two63 <=? z) && (z <? two63).
 Definition vint (z : Z) : ev := if small z then Val (VInt I64 z) else Unspec.
 
+(* keys of map literals: "a key/value literal inside {..}" with string, integer or boolean keys *)
+Definition mkey_key (k : mkey) : key :=
+  match k with MKStr s => KStr s true | MKInt z => KInt I64 z | MKBool b => KBool b end.
+
 Fixpoint const_val (c : const) : option value :=
   match c with
   | CInt z => Some (VInt I64 z)
@@ -37,7 +42,15 @@ Fixpoint const_val (c : const) : option value :=
       option_map VArr
         (fold_right (fun x acc => match const_val x, acc with Some v, Some l => Some (v :: l) | _, _ => None end)
                     (Some []) l)
-  | CMap _ => None
+  | CMap m =>
+      option_map VMap
+        (fold_right (fun kv acc =>
+           match kv with
+           | (k, x) => match const_val x, acc with
+                       | Some v, Some l => Some ((mkey_key k, v) :: l)
+                       | _, _ => None
+                       end
+           end) (Some []) m)
   end.
 
 (* ---- values *)
@@ -84,6 +97,15 @@ Fixpoint is_infix (a b : str) : bool :=   (* a is a prefix of b *)
 Fixpoint substr (a b : str) : bool :=
   is_infix a b || match b with [] => false | _ :: b' => substr a b' end.
 
+(* lookup of an integer / string / boolean key: keys are equal when they are the same string, the
+   same boolean or the same integer as a mathematical value, whatever the width it is stored in
+   (Model.Order.key_eq, the C15 model of `Eq for Key`) *)
+Definition map_find (m : list (key * value)) (idx : value) : option value :=
+  match Order.as_key idx with
+  | Some k => Some (match Order.map_get m k with Some v => v | None => VUndef end)
+  | None => None
+  end.
+
 (* ---- operators *)
 (* Math: "only allowed with numbers, using them on any other kind of values will result in an error" *)
 Definition arith (o : bop) (a b : value) : ev :=
@@ -91,7 +113,11 @@ Definition arith (o : bop) (a b : value) : ev :=
   | VInt _ x, VInt _ y =>
       match o with
       | OPlus => vint (x + y) | OMinus => vint (x - y) | OMul => vint (x * y)
-      | _ => Unspec                        (* / // % ** on integers: C13 *)
+      (* "%: performs a modulo", `//`: on a non-negative dividend and a positive divisor there is
+         only one reading; signs, zero divisors, `/` and `**`: C13 *)
+      | OMod => if (0 <=? x) && (0 <? y) then vint (x mod y) else Unspec
+      | OFloorDiv => if (0 <=? x) && (0 <? y) then vint (x / y) else Unspec
+      | _ => Unspec
       end
   | VInt _ _, VFloat _ | VFloat _, VInt _ _ | VFloat _, VFloat _ => Unspec   (* floats: C13 *)
   | _, _ => Err
@@ -132,7 +158,13 @@ Definition contains (needle hay : value) : ev :=
   | VStr h _ => match needle with VStr n _ => Val (VBool (substr n h)) | _ => Unspec end
   | VMap m =>
       match needle with
-      | VStr n _ => Val (VBool (existsb (fun kv => match fst kv with KStr s _ => str_eqb s n | _ => false end) m))
+      | VStr _ _ | VInt _ _ | VBool _ =>
+          match map_find m needle with
+          | Some v => Val (VBool (match Order.as_key needle with
+                                  | Some k => match Order.map_get m k with Some _ => true | None => false end
+                                  | None => false end))
+          | None => Unspec
+          end
       | _ => Unspec
       end
   | _ => Err
@@ -169,18 +201,22 @@ Definition get_item (base idx : value) (opt : bool) : ev :=
     | VInt _ i =>
         match base with
         | VArr l => Val (match nth_py l i with Some v => v | None => VUndef end)
+        | VMap m => match map_find m idx with Some v => Val v | None => Unspec end
         | _ => Unspec
         end
     | VStr k _ =>
         match base with
-        | VMap m => Val (map_get m k)
+        | VMap m => match map_find m idx with Some v => Val v | None => Unspec end
         | VArr _ | VStr _ _ => Err
         | _ => Unspec
         end
     | VBool _ =>
         (* map literals may have boolean keys (parser.rs 580-595), so a boolean index into a map is a
            key lookup; the documentation does not mention it *)
-        match base with VMap _ => Unspec | _ => Err end
+        match base with
+        | VMap m => match map_find m idx with Some v => Val v | None => Unspec end
+        | _ => Err
+        end
     | _ => Err       (* "Only ... string or integer number can be used as index: anything else will be an error" *)
     end
   end.
@@ -283,7 +319,25 @@ Fixpoint eval (g : env) (e : expr) {struct e} : ev :=
                  | _ => Unspec
                  end))
          end) items
-  | EMap _ => Unspec
+  (* entries left to right, a later binding of an equal key wins; "...base" merges a map, a
+     spread of anything else is an error *)
+  | EMap es =>
+      (fix go (l : list (option mkey * expr)) (acc : list (key * value)) : ev :=
+         match l with
+         | [] => Val (VMap acc)
+         | (Some k, x) :: r =>
+             bind (eval g x) (fun v =>
+               match v with
+               | VUndef => Unspec
+               | _ => go r (Order.map_insert acc (mkey_key k) v)
+               end)
+         | (None, x) :: r =>
+             bind (eval g x) (fun v =>
+               match v with
+               | VMap mm => go r (fold_left (fun a kv => Order.map_insert a (fst kv) (snd kv)) mm acc)
+               | _ => Err
+               end)
+         end) es []
   | EComp _ _ _ _ _ => Unspec
   end.
 
